@@ -100,6 +100,28 @@ Definition step_spec (c : cfgT) (w : wobs) (v : sview) : bool :=
 
 Definition spec (c : case) : bool := along_views (step_spec (c_cfg c)) (w0 c) (c_steps c).
 Definition wf := LC.wf.
-Definition kf (c : case) : N := 0.
+
+(* known finding 1: umount -all (plain environment) fails in a world where a mount at or below
+   some layer's build root is covered by a LATER mount on one of its ancestor directories
+   (Model/Kernel.v: hidden_at, nocov): layercake unmounts a layer's mounts in descending path
+   order, so it calls umount(2) on the covered (deeper) mountpoint first, the call fails (the path
+   resolves through the cover), and the command stops with an idle layer still mounted --
+   although unmounting the cover first would have worked. *)
+Definition covered_below (c : cfgT) (m : lmap) (tab : list kline) : bool :=
+  negb (nocov (fun k => existsb (fun d => at_or_under d (k_mp k)) (map (build_path c) m)) tab).
+Definition step_kf (c : cfgT) (w : wobs) (v : sview) : N :=
+  match v_cmd v with
+  | CUmount [] true =>
+    if plain_env (v_env v) && rclass_beq (v_res v) RFail
+       && covered_below c (layers_on_disk c (wo_fs w)) (ks_tab (wo_ks w))
+    then 1 else 0
+  | _ => 0
+  end.
+Fixpoint kf_along (c : cfgT) (w : wobs) (ss : list step) : N :=
+  match ss with
+  | [] => 0
+  | s :: r => N.max (step_kf c w (view_of_obs w s)) (kf_along c (after w s) r)
+  end.
+Definition kf (c : case) : N := kf_along (c_cfg c) (w0 c) (c_steps c).
 Definition verdict (c : case) : N := mkverdict (wf c) (LC.corr c) (spec c) (kf c).
 End C03.
